@@ -217,10 +217,76 @@ def job_rare(module, pi, k):
     return acc
 
 
+# single-edit neighbourhood of real documents: the acceptance corpus and the model base documents with one character inserted
+# (from EDIT_CHARS) or deleted at every position, one line duplicated / deleted / swapped with the next at every line
+EDIT_CHARS = [' ', '\t', '\r', '\n', '@', '#', '|', '\\', ':', '<', '"', '`', '*', 'n']
+_EDIT_BASES = {}
+
+
+def edit_bases(max_chars):
+    if max_chars not in _EDIT_BASES:
+        from . import ref as R
+        from . import gen as G
+        from . import docmodel as M
+        good, bad = R.corpus()
+        out = []
+        for path in good + bad:
+            t = R.read_source(path)
+            if 0 < len(t) <= max_chars:
+                out.append(t)
+        for b in G.base_documents():
+            t = M.render(b)[0]
+            if len(t) <= max_chars and t not in out:
+                out.append(t)
+        _EDIT_BASES[max_chars] = out
+    return _EDIT_BASES[max_chars]
+
+
+def single_edits(text):
+    seen = {text}
+    for i in range(len(text) + 1):
+        for c in EDIT_CHARS:
+            t = text[:i] + c + text[i:]
+            if t not in seen:
+                seen.add(t)
+                yield t
+        if i < len(text):
+            t = text[:i] + text[i + 1:]
+            if t not in seen:
+                seen.add(t)
+                yield t
+    lines = text.split('\n')
+    for i in range(len(lines)):
+        for l2 in (lines[:i] + lines[i + 1:], lines[:i + 1] + lines[i:], lines[:i] + lines[i + 1:i + 2] + lines[i:i + 1] + lines[i + 2:]):
+            t = '\n'.join(l2)
+            if t not in seen:
+                seen.add(t)
+                yield t
+
+
+@worker
+def job_edits(module, max_chars, bi):
+    import importlib
+    mod = importlib.import_module(module)
+    acc = Acc()
+    base = edit_bases(max_chars)[bi]
+    t = base
+    for t in single_edits(base):
+        mod.check_text(t, acc)
+    acc.sample({'text': t[:300]})
+    return acc
+
+
+def edit_jobs(mod, max_chars):
+    return [job_edits.job(mod, max_chars, bi) for bi in range(len(edit_bases(max_chars)))]
+
+
 def run_levels(ctx, mod, k_full, k_core):
     """Iterated bounds: all words of length 0, 1, ..., k_full over the full alphabet, then lengths up to k_core over the core."""
     for k in range(0, k_full + 1):
         ctx.level('full-alphabet K=%d' % k, level_jobs(mod, 'full', k))
     ctx.level('rare-line alphabet K<=2', level_jobs(mod, 'rare', 2))
+    mc = ctx.pick(250, 1500)
+    ctx.level('single edits of corpus and base documents <= %d characters' % mc, edit_jobs(mod, mc))
     for k in range(k_full + 1, k_core + 1):
         ctx.level('core-alphabet K=%d' % k, level_jobs(mod, 'core', k))
